@@ -791,6 +791,15 @@ func c05Corpus(req, reply []byte, e *Env) (items [][]byte, classes []string) {
 	}
 	switch {
 	case inSession:
+		// authentic replies whose BMC-side session sequence number sits at the boundaries of 32-bit
+		// window arithmetic relative to the reply accepted just before (base-1): half the number space
+		// away, wrapped, zero, repeated, one behind
+		base := se.OutSeq
+		okMsg := refbmc.BuildRsp(0x81, rqNetFn+1, 0, 0x20, rqSeq, 0, rqCmd, 0, nil)
+		for _, sq := range []uint32{base - 1 + 0x80000000, base + 0x80000000, base - 2 + 0x80000000, 0x80000000, 0x7fffffff, 0xffffffff, 0, 1, base - 1, base - 2, base + 0x7fffffff, base + 15, base + 16, base + 17, base + 32, base + 33} {
+			sq := sq
+			add(fmt.Sprintf("authentic-bmc-sequence-%#x-rel-%#x", sq, sq-(base-1)), se.Wrap(okMsg, refbmc.WrapOpts{Seq: &sq}))
+		}
 		msgs, cl := hostileMsgs()
 		for i, m := range msgs {
 			add("authentic-"+cl[i], se.Wrap(m, refbmc.WrapOpts{}))
